@@ -592,6 +592,39 @@ func callback(key string) (any, error) {
 			}
 			return in, nil
 		}, nil
+	case "reenter":
+		// A user function that uses the library itself: it evaluates another compiled expression on
+		// what it was handed (or on the first input resource) while the outer evaluation is in
+		// progress, and answers its input. What the nested evaluation returns is an observation.
+		ensureReenterExpr()
+		return func(in system.Collection) (system.Collection, error) {
+			r, oc := cbEnter("reenter")
+			if reenterExpr == nil || r == nil {
+				return in, nil
+			}
+			var rs []fhir.Resource
+			for _, it := range in {
+				if x, ok := it.(fhir.Resource); ok {
+					rs = append(rs, x)
+				}
+			}
+			if len(rs) == 0 && r.in != nil && len(r.in.resources) > 0 {
+				rs = r.in.resources[:1]
+			}
+			// the nested evaluation is an evaluation of its own: it has its own instant
+			var savedSet bool
+			var savedNow time.Time
+			if oc != nil {
+				savedSet, savedNow = oc.nowSet, oc.now
+				oc.nowSet = false
+			}
+			out, err := reenterExpr.Evaluate(rs)
+			if oc != nil {
+				oc.nowSet, oc.now = savedSet, savedNow
+				oc.probes = append(oc.probes, fmt.Sprintf("reenter(%s,%v)", valueDigest(out), err != nil))
+			}
+			return in, nil
+		}, nil
 	case "fail":
 		k, err := strconv.Atoi(arg)
 		if err != nil || k < 0 || k >= len(injected) {
@@ -643,6 +676,22 @@ func callback(key string) (any, error) {
 		}, nil
 	}
 	return nil, fmt.Errorf("unknown callback %q", key)
+}
+
+// reenterExpr is the expression the "reenter" callback evaluates (compiled on first need, by the
+// root, with the node wrapper of its own so that the program being compiled keeps its node list).
+var reenterExpr *fhirpath.Expression
+
+func ensureReenterExpr() {
+	if reenterExpr != nil {
+		return
+	}
+	savedNodes, savedWrap := compileNodes, parser.VerifWrap
+	installWrap()
+	if e, err := fhirpath.Compile("children().count() + descendants().where($this is id).count()"); err == nil {
+		reenterExpr = e
+	}
+	compileNodes, parser.VerifWrap = savedNodes, savedWrap
 }
 
 // valueDigest renders a collection by value (no identities: the isolated reference pass works on
